@@ -17,7 +17,7 @@ RULE = ("histories of 1-5 program segments with 0-10 events each on fock (pure a
         "units, swapping two-mode beamsplitters, measurements (post-selected homodyne, MeasureFock), gates with "
         "measured-parameter dependencies, rejected selections (deleted / unknown / negative index, duplicate, foreign "
         "or stale RegRef, empty list, wrong arity, dependency on a deleted mode), engine reset, fresh Program(n) as "
-        "successor, appends to a locked program; after every segment direct back-end calls on every index "
+        "successor, eng.reset() while going on with Program(prev), All(gate) on several modes, shared Operation instances, appends to a locked program, the first program re-run on a new engine; after every segment direct back-end calls on every index "
         "0..created+1, del_mode on copies, and state(modes=positions).  Non-trivial = at least one accepted Del or "
         "New and at least one data-carrying gate; distinct by (backend, events).")
 ASSUMPTIONS = [
@@ -25,9 +25,8 @@ ASSUMPTIONS = [
     "gates of the histories are Xgate, BSgate(pi/2, 0), MeasureHomodyne(select), MeasureFock — that each of them acts "
     "only on its targets is the subject of C05, here only the selection of rows / axes and their labels is at stake",
     "fock back end: cutoff 5, |<x>| <= 1, comparison of <x>/0.25 to the nearest integer within 0.06",
-    "explicit state(modes=...) is read as positions in the list of active modes (fock, gaussian); not checked on bosonic",
-    "histories keep at least one mode alive; a first program inheriting a register with holes (Program(parent) on a fresh "
-    "or reset engine) is not generated",
+    "explicit state(modes=...): positions in the list of active modes, in the requested order (fock, gaussian); mode indices, returned in ascending order (bosonic)",
+    "gaussian/bosonic histories measure one mode at a time (Gaussian measure_fock does not update the state, bosonic has no MeasureFock)",
 ]
 TRUSTED = ["modelled: Program._add_subsystems/_delete_subsystems/_test_regrefs/append/can_follow/Program(parent), "
            "Operation.__or__, New, Del, BaseEngine._run hand-over, ModeMap, FockBackend._remap_modes/add_mode/del_mode/"
@@ -37,7 +36,7 @@ TRUSTED = ["modelled: Program._add_subsystems/_delete_subsystems/_test_regrefs/a
            "compilers do not reorder; checked implicitly by the data fingerprints)"]
 
 PROG_KEYS = ("r", "reg", "refs", "unused", "locked", "initNum", "ncmd", "new")
-END_KEYS = PROG_KEYS + ("gm", "internal", "nstore", "state", "ranReg")
+END_KEYS = PROG_KEYS + ("gm", "internal", "nstore", "state", "ranReg", "skeys")
 
 
 def canon(v):
@@ -72,9 +71,12 @@ def oracle(ctx, hist, real):
         ctx.fail(sig, f"[{be}] {what}", rp)
 
     seg_nonempty = False
+    seg_meas = {}           # index -> "h" (post-selected homodyne, value 0.25) | "f" (MeasureFock) in this segment
     for k, (ev, ob) in enumerate(zip(hist["events"], real)):
         e = ev["e"]
         ctx.oracle_cases += 1
+        if ob.get("alias"):
+            fail("program-aliasing", f"event {k} {ev['e']}: " + "; ".join(ob["alias"]))
         if e in ("new", "del", "use", "meas"):
             ok, family = spec.accepts(ev)
             before = prev_refs
@@ -83,7 +85,10 @@ def oracle(ctx, hist, real):
                     fail("prog-rejects-valid", f"event {k} {ev} raised {ob['r']} although all named modes are live")
                     return tainted
                 newinds = spec.apply(ev)
-                seg_nonempty = True
+                seg_nonempty = seg_nonempty or not (ev.get("all") and not ev["ms"])
+                if e == "meas":
+                    for r_ in ev["ms"]:
+                        seg_meas[reghist.ref_idx(r_)] = "h" if len(ev["ms"]) == 1 else "f"
                 if e == "new" and ob.get("new") != newinds:
                     fail("new-indices", f"event {k}: New({ev['n']}) returned indices {ob.get('new')}, expected {newinds}")
             else:
@@ -107,7 +112,7 @@ def oracle(ctx, hist, real):
         elif e == "end":
             if ev.get("mismatch"):
                 if ob["r"] != "RuntimeError":
-                    fail("can-follow", f"event {k}: a fresh Program that does not match the register ran ({ob['r']})")
+                    fail("can-follow", f"event {k}: a program whose initial register does not match the simulator ran ({ob['r']})")
                 return tainted
             if ob["r"] != "ok":
                 if seg_nonempty:
@@ -150,7 +155,10 @@ def oracle(ctx, hist, real):
                     if po["gm"] != exp:
                         fail(f"backend-probe-modes:{be}", f"event {k}: after {pr['t']} {ms}: get_modes {po['gm']}, expected {exp}")
             for ms, so in zip(ev.get("modes", []), ob["smodes"]):
-                exp = [spec.state()[p] for p in ms]
+                if be == "bosonic":      # mode indices, returned in ascending order
+                    exp = [[i, spec.rows[i]] for i in sorted(ms)]
+                else:                    # positions in the list of active modes, returned in the requested order
+                    exp = [spec.state()[p] for p in ms]
                 if isinstance(so, dict):
                     fail(f"state-modes-raises:{be}", f"event {k}: state(modes={ms}) failed: {so}")
                 elif any(lbl not in live or spec.rows[lbl] != d for lbl, d in so) or len(so) != len(ms):
@@ -158,13 +166,40 @@ def oracle(ctx, hist, real):
                     fail(f"state-modes-mislabelled:{be}", f"event {k}: state(modes={ms}) returned {so}, modes carry {spec.state()}")
                 elif so != exp:
                     fail(f"state-modes-selection:{be}", f"event {k}: state(modes={ms}) returned {so}, expected {exp}")
+            ag = ob.get("again")
+            if isinstance(ag, dict) and (ag.get("gm") != ob["gm"] or ag.get("state") != ob["state"]):
+                fail(f"observation-not-repeatable:{be}", f"event {k}: asking again after the back-end probes gives {ag}, first answer "
+                     f"get_modes {ob['gm']}, state {ob['state']}")
+            rr = ob.get("rerun")
+            if isinstance(rr, dict) and (rr.get("gm") != ob["gm"] or rr.get("state") != ob["state"]):
+                fail(f"rerun-differs:{be}", f"event {k}: the same program on a new engine gives {rr}, first run get_modes {ob['gm']}, "
+                     f"state {ob['state']}")
+            sm_ = ob.get("samples")
+            if isinstance(sm_, dict):
+                if "err" in sm_:
+                    fail(f"samples-raises:{be}", f"event {k}: {sm_}")
+                elif sorted(int(x) for x in sm_) != sorted(seg_meas):
+                    fail(f"samples-index:{be}", f"event {k}: samples_dict has keys {sorted(sm_)}, measured modes {sorted(seg_meas)}")
+                elif any(seg_meas[int(i)] == "h" and abs(v[0] - reghist.UNIT) > 1e-9 for i, v in sm_.items()):
+                    fail(f"samples-index:{be}", f"event {k}: samples_dict {sm_}, post-selected value {reghist.UNIT} expected "
+                         f"under the indices {sorted(i for i, t in seg_meas.items() if t == 'h')}")
+                elif ob.get("samples_shape") not in ([1, len(seg_meas)], [0, 0]) or (ob.get("samples_shape") == [0, 0] and seg_meas):
+                    fail(f"samples-index:{be}", f"event {k}: Result.samples has shape {ob.get('samples_shape')} for {len(seg_meas)} measured modes")
+            seg_meas = {}
             if ob["refs"] != prev_refs or ob["reg"] != live or ob["initNum"] != len(live):
                 fail("handover", f"event {k}: Program(prev) starts with {ob['refs']} / {ob['initNum']}, previous ended with {prev_refs}")
             if len(fails) > n0 and be == "bosonic" and segs_run >= 2 and tainted is None:
                 tainted = k
         elif e == "reset":
+            seg_meas = {}
             spec = reghist.Spec(ev["n"])
             prev_refs = [[i, True] for i in range(ev["n"])]
+            segs_run = 0
+            seg_nonempty = False
+        elif e == "resetkeep":
+            # the register (no holes, else the next run is refused) goes on, on a new simulator
+            if None not in spec.rows:
+                spec = reghist.Spec(len(spec.rows))
             segs_run = 0
             seg_nonempty = False
         elif e == "fresh":
@@ -202,18 +237,19 @@ def compare(ctx, hist, real, model, upto):
         e = ev["e"]
         if e == "poke":
             keys = ("use", "new")
-        elif e in ("end", "reset"):
+        elif e in ("end", "reset", "resetkeep"):
             keys = END_KEYS if ob["r"] == "ok" else ("r",)
-            if e == "reset":
-                keys = tuple(x for x in keys if x != "ranReg")
+            if e != "end":
+                keys = tuple(x for x in keys if x not in ("ranReg", "skeys"))
         else:
             keys = PROG_KEYS
         a = {x: canon(mo.get(x)) for x in keys}
         b = {x: canon(ob.get(x)) for x in keys}
-        if e in ("end", "reset") and ob["r"] == "ok":
-            a["probe"], b["probe"] = canon(mo.get("probe")), canon(ob.get("probe"))
-            a["smodes"] = canon(mo.get("smodes"))
-            b["smodes"] = [s if not isinstance(s, dict) else {"err": s["err"]} for s in canon(ob.get("smodes"))]
+        if e in ("end", "reset", "resetkeep") and ob["r"] == "ok":
+            if e != "resetkeep":
+                a["probe"], b["probe"] = canon(mo.get("probe")), canon(ob.get("probe"))
+                a["smodes"] = canon(mo.get("smodes"))
+                b["smodes"] = [s if not isinstance(s, dict) else {"err": s["err"]} for s in canon(ob.get("smodes"))]
             if isinstance(b["state"], dict):
                 b["state"] = {"err": b["state"]["err"]}
         if a != b:
@@ -234,6 +270,14 @@ def one_history(ctx, sf, hist, batch):
         if "bad" in ev:
             ctx.tally(f"bad:{ev['bad']}")
     ctx.tally("segments", sum(1 for e in hist["events"] if e["e"] == "end"))
+    for ev, ob in zip(hist["events"], real):
+        if ev["e"] == "end":
+            if ev.get("mismatch"):
+                ctx.tally("end:refused-register-mismatch")
+            elif ob.get("r") == "ok":
+                ctx.tally("end:zero-modes" if not ob["gm"] else "end:with-deleted" if None in ob["internal"] else "end:no-deletion")
+                ctx.tally("state(modes)", len(ev.get("modes", [])))
+                ctx.tally("backend-probes", len(ev.get("probe", [])))
     if len(ctx.failures) > n0 and upto is None and not all(
             f["sig"] == "bosonic-later-segment-reinit" for f in ctx.failures[n0:]):
         upto = 0   # a property failure: do not also report it as model disagreement
